@@ -55,12 +55,27 @@ def fresh_per_iteration(loop, name):
 
 
 def shared_defaults(fdef):
-    """default argument values that are objects built once, when the function is defined (calls, list / dict / set displays, comprehensions):
-    state kept in them is shared by every call that does not pass the argument"""
-    out = []
+    """default argument values that are objects built once, when the function is defined (calls, list / dict / set displays, comprehensions), for
+    parameters the body mutates or hands on (a method call on it, a store through it, an augmented assignment, passing it to another call):
+    state kept in them is shared by every call that does not pass the argument.  A default that is only read is harmless and not listed."""
+    import ast
     a = fdef.args
     names = [x.arg for x in a.args][len(a.args) - len(a.defaults):] + [x.arg for x in a.kwonlyargs]
+    out = []
     for nm, d in zip(names, list(a.defaults) + list(a.kw_defaults)):
-        if d is not None and isinstance(d, (ast.Call, ast.List, ast.Dict, ast.Set, ast.ListComp, ast.DictComp, ast.SetComp)):
+        if d is None or not isinstance(d, (ast.Call, ast.List, ast.Dict, ast.Set, ast.ListComp, ast.DictComp, ast.SetComp)):
+            continue
+        used = False
+        for n in ast.walk(fdef):
+            if isinstance(n, ast.Call):
+                if isinstance(n.func, ast.Attribute) and isinstance(n.func.value, ast.Name) and n.func.value.id == nm:
+                    used = True
+                if any(isinstance(x, ast.Name) and x.id == nm for x in list(n.args) + [k.value for k in n.keywords]):
+                    used = True
+            elif isinstance(n, (ast.Attribute, ast.Subscript)) and isinstance(n.ctx, (ast.Store, ast.Del)) and isinstance(n.value, ast.Name) and n.value.id == nm:
+                used = True
+            elif isinstance(n, ast.AugAssign) and isinstance(n.target, ast.Name) and n.target.id == nm:
+                used = True
+        if used:
             out.append('%s=%s' % (nm, ast.unparse(d)))
     return out
